@@ -106,6 +106,10 @@ def parse(src):
     marks_m = re.search(r"daily_log\s*\.\s*write\s*\(\s*conn\s*\)\s*(\?)?", tail)
     commit_m = re.search(r'conn\s*\.\s*execute\s*\(\s*"COMMIT"\s*,\s*\[\s*\]\s*\)\s*(\?)?', tail)
     if not commit_m: raise ParseError("COMMIT after the loop not found")
+    # transaction-control statements INSIDE the loop over the buffer (ROLLBACK on an error path is not one):
+    # the whole buffer must be one transaction
+    loop_txt = body[lm.start():loop_end]
+    txn_in_loop = len(re.findall(r'"\s*(?:BEGIN|COMMIT|END|SAVEPOINT|RELEASE)\b', loop_txt, flags=re.I))
     marks_in_txn = marks_m is not None and marks_m.start() < commit_m.start() and begin.start() < lm.start()
     def followed_by_rollback(m2):
         """`stmt?` -> no rollback; `if let Err(e) = stmt { ROLLBACK; return Err }` -> rollback"""
@@ -146,7 +150,7 @@ def parse(src):
     err_in_ok = len(re.findall(r"Err\s*\(", ok_blk))
     pre_ack = s[tm.start():tm.end() + mt.start()]
     ack_hook = re.search(r'fault::hit\s*\(\s*"batch\.before_ack"', pre_ack) is not None
-    return dict(arms=arms, steps=steps, marks_in_txn=marks_in_txn, marks_rb=marks_rb, commit_rb=commit_rb,
+    return dict(txn_in_loop=txn_in_loop, arms=arms, steps=steps, marks_in_txn=marks_in_txn, marks_rb=marks_rb, commit_rb=commit_rb,
                 begin_q=begin.group(1) == "?", points=[(n, k) for n, k, _ in points], ack_hook=ack_hook,
                 ok_sends=sends(ok_blk), err_sends=sends(err_blk), ok_in_err=ok_in_err, err_in_ok=err_in_ok)
 
@@ -182,6 +186,8 @@ def render(t):
     L.append("")
     L.append("/-- the marks write sits between BEGIN and COMMIT -/")
     L.append("def marksInTransaction : Bool := " + lean_bool(t["marks_in_txn"]))
+    L.append("/-- BEGIN / COMMIT / END / SAVEPOINT / RELEASE statements inside the loop over the buffer -/")
+    L.append("def txnControlInLoop : Nat := %d" % t.get("txn_in_loop", 1))
     L.append("/-- a failure of the marks write is followed by a ROLLBACK -/")
     L.append("def marksFailureRollsBack : Bool := " + lean_bool(t["marks_rb"]))
     L.append("/-- a failure of COMMIT is followed by a ROLLBACK -/")
